@@ -464,17 +464,29 @@ def match_known(known, sig):
     return None
 
 
+_plan_cache = {}
+
+
+def gen_plan_cached(cfg, tier, seed, run):
+    key = (cfg['binaries'][0], tier, seed, run)
+    if key not in _plan_cache:
+        _plan_cache[key] = gen_plan(cfg, tier, seed, run)
+    return _plan_cache[key]
+
+
 def history_dependent(cfg, tier, seed, plan, v, binary):
-    """the shortest suffix of the worker's earlier runs (then a minimal subset
+    """the shortest suffix of the worker's earlier runs (then a smaller subset
     of it) after which the plan fails as the worker saw it; None if no such"""
     hist = v['history']
     want = v['sig']
-    timeout = 3 * cfg.get('exec_timeout', 120)
+    t_start = time.time()
+    wall = cfg.get('history_wall', 420)
 
     def attempt(runs):
         p = dict(plan)
-        p['sequence'] = [gen_plan(cfg, tier, seed, r) for r in runs]
+        p['sequence'] = [gen_plan_cached(cfg, tier, seed, r) for r in runs]
         p['sequence_runs'] = list(runs)
+        timeout = cfg.get('exec_timeout', 120) * max(3, len(runs) // 20)
         return p, exec_plan(cfg, p, binary, timeout=timeout)
     k, found = 1, None
     while True:
@@ -482,25 +494,35 @@ def history_dependent(cfg, tier, seed, plan, v, binary):
         if r['sig'] == want:
             found = hist[-k:]
             break
-        if k >= len(hist):
+        if k >= len(hist) or time.time() - t_start > wall:
             break
         k = min(len(hist), k * 2)
     if found is None:
         return None
-    # drop earlier runs one at a time while the failure persists
-    i = 0
-    tests = 0
-    while i < len(found) and len(found) > 1 and tests < 40:
-        cand = found[:i] + found[i + 1:]
-        tests += 1
-        p, r = attempt(cand)
-        if r['sig'] == want:
-            found = cand
-        else:
-            i += 1
+    # fewer earlier runs: remove chunks (halves, quarters, ... single runs)
+    # while the failure persists, within a wall-clock budget
+    chunk = max(1, len(found) // 2)
+    while chunk >= 1 and len(found) > 1 and time.time() - t_start < wall:
+        i = 0
+        removed_any = False
+        while i < len(found) and len(found) > 1 and time.time() - t_start < wall:
+            cand = found[:i] + found[i + chunk:]
+            if not cand:
+                i += chunk
+                continue
+            p, r = attempt(cand)
+            if r['sig'] == want:
+                found = cand
+                removed_any = True
+            else:
+                i += chunk
+        if chunk == 1 and not removed_any:
+            break
+        chunk = chunk // 2 if chunk > 1 else (1 if removed_any else 0)
     p, a = attempt(found)
     _, b = attempt(found)
-    log('NOTE: the violation needs the history of the worker process: after run(s) %s of the same batch' % found)
+    log('NOTE: the violation needs the history of the worker process: after %d earlier run(s) of the same batch%s'
+        % (len(found), (' ' + str(found)) if len(found) <= 12 else ''))
     return p, a, b
 
 
@@ -544,7 +566,11 @@ def process_violation(cfg, prop, tier, seed, run, v, binary):
     t_start = time.time()
     wall = cfg.get('shrink_wall', 150)
 
-    seq_timeout = 3 * cfg.get('exec_timeout', 120) if plan.get('sequence') else None
+    seq_timeout = None
+    if plan.get('sequence'):
+        seq_timeout = cfg.get('exec_timeout', 120) * max(3, len(plan['sequence']) // 20)
+        if len(plan['sequence']) > 8:
+            budget = min(budget, 40)   # every test replays the whole history
     keys = cfg.get('shrink_keys')
     if plan.get('sequence'):
         keys = list(keys or shrinker.DEFAULT_KEYS) + ['sequence']
@@ -587,7 +613,8 @@ def do_replay(cfg, prop, path):
     exp = plan.get('expect', {})
     binary = exp.get('binary') or cfg['binaries'][0]
     r = exec_plan(cfg, plan, binary, keep_events=True,
-                  timeout=3 * cfg.get('exec_timeout', 120) if plan.get('sequence') else None)
+                  timeout=cfg.get('exec_timeout', 120) * max(3, len(plan['sequence']) // 20)
+                  if plan.get('sequence') else None)
     log('replay: signature=%r trace_hash=%s' % (r['sig'], r['hash']))
     if r['detail']:
         log(r['detail'])
